@@ -54,7 +54,18 @@ fn write_archive<W: Write>(spec: &Spec, sink: W) -> Result<(u64, u64), String> {
     let mut w = ArchiveWriter::from_config(sink, cfg.writer_config()).map_err(|e| format!("{e:?}"))?;
     let total = spec.mib * MIB;
     let (files, runs);
-    if !spec.interleaved {
+    if !spec.interleaved && spec.op == "write_stream" {
+        // the io::Write adapter: io::copy from the generator in its own buffer sizes
+        let id = w.start_file("big").map_err(|e| format!("{e:?}"))?;
+        {
+            let mut sw = mla::helpers::StreamWriter::new(&mut w, id);
+            let mut src = GenReader { file: 0, pos: 0, end: total as u64, e: Entropy::Noise };
+            std::io::copy(&mut src, &mut sw).map_err(|e| format!("{e:?}"))?;
+        }
+        w.end_file(id).map_err(|e| format!("{e:?}"))?;
+        files = 1;
+        runs = (total / 8192) as u64;
+    } else if !spec.interleaved {
         let src = GenReader { file: 0, pos: 0, end: total as u64, e: Entropy::Noise };
         w.add_file("big", total as u64, src).map_err(|e| format!("{e:?}"))?;
         files = 1;
@@ -92,7 +103,7 @@ fn write_archive<W: Write>(spec: &Spec, sink: W) -> Result<(u64, u64), String> {
 fn measure(spec: &Spec) -> i32 {
     mem::enable_counting();
     let result: Result<(i64, u64, u64, u64), String> = (|| {
-        if spec.op == "write" {
+        if spec.op == "write" || spec.op == "write_stream" {
             let base = mem::live_signed();
             mem::reset_peak();
             let mut sink = CountSink(0);
@@ -120,6 +131,29 @@ fn measure(spec: &Spec) -> i32 {
                     }
                 }
                 streamed = sink.0;
+            }
+            "repair_cut" => {
+                // the archive cut at 3/4 of its length: no footer, the fail-safe readers end on a short read
+                let cut = archive.len() / 4 * 3;
+                let mut fs = ArchiveFailSafeReader::from_config(&archive[..cut], prog::reader_config(&[0])).map_err(|e| format!("{e:?}"))?;
+                let mut wc = ArchiveWriterConfig::new();
+                wc.set_layers(Layers::EMPTY);
+                let mut sink = CountSink(0);
+                {
+                    let mut w = ArchiveWriter::from_config(&mut sink, wc).map_err(|e| format!("{e:?}"))?;
+                    fs.convert_to_archive(&mut w).map_err(|e| format!("{e:?}"))?;
+                }
+                streamed = sink.0;
+            }
+            "linear_subset" => {
+                // partial linear extraction: every other file (none of a single-file archive) is exported, the
+                // others are skipped block by block
+                let mut rd = ArchiveReader::from_config(Cursor::new(&archive[..]), prog::reader_config(&[0])).map_err(|e| format!("{e:?}"))?;
+                let mut names: Vec<String> = rd.list_files().map_err(|e| format!("{e:?}"))?.cloned().collect();
+                names.sort();
+                let mut sinks: HashMap<&String, CountSink> = names.iter().skip(1).step_by(2).map(|n| (n, CountSink(0))).collect();
+                linear_extract(&mut rd, &mut sinks).map_err(|e| format!("{e:?}"))?;
+                streamed = sinks.values().map(|s| s.0).sum();
             }
             "linear_extract" => {
                 let mut rd = ArchiveReader::from_config(Cursor::new(&archive[..]), prog::reader_config(&[0])).map_err(|e| format!("{e:?}"))?;
@@ -185,7 +219,7 @@ pub fn run(started: Instant) -> i32 {
     }
     let thorough = infra::thorough();
     let sizes: Vec<usize> = if thorough { vec![4, 16, 64, 256, 1024] } else { vec![4, 16, 64] };
-    let ops = ["write", "repair", "linear_extract", "read_files"];
+    let ops = ["write", "write_stream", "repair", "repair_cut", "linear_extract", "linear_subset", "read_files"];
     let mut specs = Vec::new();
     for op in ops {
         for l in L4::ALL {
@@ -197,6 +231,13 @@ pub fn run(started: Instant) -> i32 {
                 for s in &ladder {
                     // the 1 GiB point: one shape per operation is enough (time), all layers for write
                     if *s == 1024 && (inter || (op != "write" && l != L4::Both)) {
+                        continue;
+                    }
+                    if op == "write_stream" && inter {
+                        continue;
+                    }
+                    // the variants of an operation: layers none and both in the quick tier
+                    if !thorough && matches!(op, "write_stream" | "repair_cut" | "linear_subset") && matches!(l, L4::Compress | L4::Encrypt) {
                         continue;
                     }
                     // quick tier: every operation on layers none and both; the single-layer combinations for write only
@@ -254,7 +295,11 @@ pub fn run(started: Instant) -> i32 {
                     rep.violate(Violation { sig: json!({"kind": "peak_above_ceiling", "operation": spec.op, "layers": spec.layers.tag()}), detail: format!("{}: peak live heap {} bytes > 64 MiB + 512 B x (files {} + runs {}) = {}", spec.json(), peak, files, runs, ceiling), replay: spec.json(), weight: spec.mib as u64 });
                 }
                 // (a compressed archive being written is legitimately smaller than its content)
-                if *streamed < (spec.mib * MIB) as u64 && !(spec.op == "write" && spec.layers.compressed()) {
+                let partial = matches!(spec.op.as_str(), "repair_cut" | "linear_subset");
+                if partial && spec.op == "repair_cut" && *streamed < (spec.mib * MIB / 2) as u64 {
+                    rep.violate(Violation { sig: json!({"kind": "not_everything_streamed", "operation": spec.op}), detail: format!("{}: only {} bytes recovered from 3/4 of the archive", spec.json(), streamed), replay: spec.json(), weight: spec.mib as u64 });
+                }
+                if !partial && *streamed < (spec.mib * MIB) as u64 && !(spec.op.starts_with("write") && spec.layers.compressed()) {
                     rep.violate(Violation { sig: json!({"kind": "not_everything_streamed", "operation": spec.op}), detail: format!("{}: only {} bytes went through", spec.json(), streamed), replay: spec.json(), weight: spec.mib as u64 });
                 }
                 table.entry((spec.op.clone(), spec.layers, spec.interleaved)).or_default().push((spec.mib, *peak));
@@ -289,7 +334,7 @@ pub fn run(started: Instant) -> i32 {
         rep,
         Meta {
             level: "exploration",
-            rule: "production-constant build; for each operation {write from a generator to a counting sink, repair, linear extraction, per-file read} x 4 layer combinations x {1 file, 64 files interleaved in 4 KiB pieces} x size ladder, one process per point with a counting global allocator: peak live heap above the level at the start of the operation must stay under 64 MiB + 512 B x (files + runs), everything must actually stream through, and the peak must not grow between 16 MiB, 64 MiB (and 256 MiB, 1 GiB in thorough) beyond 5 % + 1 MiB + the index growth. The archive bytes read by repair/extract are held outside the measured interval".to_string(),
+            rule: "production-constant build; for each operation {write from a generator to a counting sink (add_file / interleaved appends / io::copy into StreamWriter), repair of the intact archive and of the archive cut at 3/4, linear extraction of all files and of every other file (none of a single-file archive: the skip path), per-file read} x 4 layer combinations x {1 file, 64 files interleaved in 4 KiB pieces} x size ladder, one process per point with a counting global allocator: peak live heap above the level at the start of the operation must stay under 64 MiB + 512 B x (files + runs), everything must actually stream through, and the peak must not grow between 16 MiB, 64 MiB (and 256 MiB, 1 GiB in thorough) beyond 5 % + 1 MiB + the index growth. The archive bytes read by repair/extract are held outside the measured interval".to_string(),
             exhaustive: false,
             bounds: json!({"size_ladder_mib": sizes, "points": specs.len(), "note": "the size dimension is a ladder, a bound - not 'all sizes'"}),
             assumptions: vec!["noise/pattern contents, brotli level 1".to_string()],
